@@ -79,11 +79,16 @@ struct Scope {
 }
 
 impl Scope {
+    /// the visible bindings: the innermost binding of a name shadows outer ones
+    fn visible(&self) -> Vec<(&str, Ty)> {
+        let mut seen = std::collections::BTreeSet::new();
+        self.vars.iter().filter(|(n, _)| seen.insert(n.as_str())).map(|(n, t)| (n.as_str(), *t)).collect()
+    }
     fn of(&self, ty: Ty) -> Vec<&str> {
-        self.vars.iter().filter(|(_, t)| *t == ty).map(|(n, _)| n.as_str()).collect()
+        self.visible().into_iter().filter(|(_, t)| *t == ty).map(|(n, _)| n).collect()
     }
     fn displayable(&self) -> Vec<&str> {
-        self.vars.iter().filter(|(_, t)| matches!(t, Ty::Str | Ty::I32 | Ty::Bool | Ty::Disp)).map(|(n, _)| n.as_str()).collect()
+        self.visible().into_iter().filter(|(_, t)| matches!(t, Ty::Str | Ty::I32 | Ty::Bool | Ty::Disp)).map(|(n, _)| n).collect()
     }
 }
 
